@@ -340,4 +340,88 @@ theorem gnetIdle_gaps (idle : Nat) : ∀ (ts : List Nat) (prev last : Nat),
     simp only [gnetIdle, hn, if_false, List.length_cons]
     rw [ih t _ (Nat.le_max_right last t) h2]; omega
 
+
+theorem fuelFor_pos (now : Nat) (arr : List Nat) : 1 ≤ fuelFor now arr := by
+  cases arr <;> simp [fuelFor] <;> omega
+
+theorem fuelFor_le_zero (now : Nat) (arr : List Nat) : fuelFor now arr ≤ fuelFor 0 arr := by
+  cases arr with
+  | nil => simp [fuelFor]
+  | cons a as => simp only [fuelFor]; omega
+
+theorem idleLoopB_pacedB (idle : Nat) (hidle : 1 ≤ idle) (busy : Nat → Bool) (lag : Nat → Nat) :
+    ∀ (fuel : Nat) (arr : List Nat) (j prev now : Nat),
+      prev ≤ now → pacedB idle busy prev arr → fuelFor now arr ≤ fuel →
+      idleLoopB idle busy lag fuel j now (arr.map (fun a => (a, a))) = arr.length := by
+  intro fuel
+  induction fuel with
+  | zero =>
+    intro arr j prev now _ _ hf
+    have := fuelFor_pos now arr; omega
+  | succ fuel ih =>
+    intro arr j prev now hle hp hf
+    cases arr with
+    | nil => simp [idleLoopB]
+    | cons a as =>
+      obtain ⟨h1, h2⟩ := hp
+      simp only [fuelFor] at hf
+      by_cases ha : a ≤ now + idle
+      · have hmax : a ≤ Nat.max now a + lag j := by
+          have : a ≤ Nat.max now a := Nat.le_max_right now a
+          omega
+        have hf2 : fuelFor (Nat.max now a + lag j) as ≤ fuel := by
+          have := fuelFor_le_zero (Nat.max now a + lag j) as; omega
+        simp only [List.map_cons, idleLoopB, ha, if_true, List.length_cons]
+        rw [ih as (j + 1) a _ hmax h2 hf2]; omega
+      · have hgt : a > now + idle := by omega
+        have hb : busy (now + idle) = true := by
+          rcases h1 with h1 | h1
+          · omega
+          · exact h1 (now + idle) (by omega) hgt
+        have hf2 : fuelFor (now + idle) (a :: as) ≤ fuel := by
+          simp only [fuelFor]; omega
+        have hcont : (decide (a > now + idle) && busy (now + idle)) = true := by simp [hgt, hb]
+        simp only [List.map_cons, idleLoopB, ha, if_false, hcont, if_true]
+        have := ih (a :: as) j prev (now + idle) (by omega) ⟨h1, h2⟩ hf2
+        simpa using this
+
+/-- a message of which some octets have arrived when the deadline passes is NOT waited for any longer,
+    queries in flight or not (`n > 0`) -/
+theorem idleLoopB_partial (idle : Nat) (busy : Nat → Bool) (lag : Nat → Nat) (fuel j now p a : Nat)
+    (as : List (Nat × Nat)) (hp : p ≤ now + idle) (ha : now + idle < a) :
+    idleLoopB idle busy lag (fuel + 1) j now ((p, a) :: as) = 0 := by
+  have h1 : ¬ a ≤ now + idle := by omega
+  have h2 : ¬ p > now + idle := by omega
+  simp [idleLoopB, h1, h2]
+
+theorem gnetIdleB_gaps (idle : Nat) (hidle : 1 ≤ idle) (busy : Nat → Bool) :
+    ∀ (fuel : Nat) (ts : List Nat) (prev last : Nat),
+      prev ≤ last → gapsBelowB idle busy prev ts → fuelFor last ts ≤ fuel →
+      gnetIdleB idle busy fuel last ts = ts.length := by
+  intro fuel
+  induction fuel with
+  | zero =>
+    intro ts prev last _ _ hf
+    have := fuelFor_pos last ts; omega
+  | succ fuel ih =>
+    intro ts prev last hle hp hf
+    cases ts with
+    | nil => simp [gnetIdleB]
+    | cons t ts =>
+      obtain ⟨h1, h2⟩ := hp
+      simp only [fuelFor] at hf
+      by_cases ht : t < last + idle
+      · have hf2 : fuelFor (Nat.max last t) ts ≤ fuel := by
+          have := fuelFor_le_zero (Nat.max last t) ts; omega
+        simp only [gnetIdleB, ht, if_true, List.length_cons]
+        rw [ih ts t _ (Nat.le_max_right last t) h2 hf2]; omega
+      · have hb : busy (last + idle) = true := by
+          rcases h1 with h1 | h1
+          · omega
+          · exact h1 (last + idle) (by omega) (by omega)
+        have hf2 : fuelFor (last + idle) (t :: ts) ≤ fuel := by
+          simp only [fuelFor]; omega
+        simp only [gnetIdleB, ht, if_false, hb, if_true]
+        exact ih (t :: ts) prev (last + idle) (by omega) ⟨h1, h2⟩ hf2
+
 end MosVerif.Framing
